@@ -213,7 +213,15 @@ def record_trace(rng, stream, use_queue=False):
 def replay_trace(case):
     rng = random.Random(case['rseed'])
     stream = case['stream']
-    ev = record_trace(rng, stream)
+    if len(stream) > 1000 and stream[0] == 0xfa and stream[-1] == 0xfc:
+        import mido
+        p = mido.Parser()
+        p.feed(stream)
+        ev = [{'a': 'feed', 'b': stream, 'p': p.pending()},
+              {'a': 'get', 'k': 1, 'r': [int(x) for x in (p.get_message() or mido.Message('stop')).bytes()]},
+              {'a': 'iter', 'r': [[int(x) for x in m.bytes()] for m in p]}]
+    else:
+        ev = record_trace(rng, stream)
     work_ctx = core.Ctx('C04', 'quick', 0)
     rej = core.validate_batch(work_ctx, 'TokenizerTrace', [ev])
     if rej:
@@ -229,6 +237,18 @@ def run_traces(ctx, n_traces, length, label='TokenizerTrace'):
         rseed = rng.randrange(1 << 30)
         stream = random_stream(rng, length)
         traces.append(record_trace(random.Random(rseed), stream))
+        meta.append((rseed, stream))
+    # bursts: very many complete messages fed before anything is retrieved
+    import mido
+    for nmsg in ((1500, 2100) if n_traces < 50 else (1500, 5000, 20000)):
+        rseed = rng.randrange(1 << 30)
+        stream = [0xfa] + [rng.choice([0xf8, 0xf8, 0xfe, 0xf6]) for _ in range(nmsg)] + [0x90, 1, 2, 0xfc]
+        p = mido.Parser()
+        p.feed(stream)
+        ev = [{'a': 'feed', 'b': stream, 'p': p.pending()},
+              {'a': 'get', 'k': 1, 'r': [int(x) for x in (p.get_message() or mido.Message('stop')).bytes()]},
+              {'a': 'iter', 'r': [[int(x) for x in m.bytes()] for m in p]}]
+        traces.append(ev)
         meta.append((rseed, stream))
     for idx, furthest in core.validate_batch(ctx, 'TokenizerTrace', traces, label):
         rseed, stream = meta[idx]
